@@ -51,7 +51,7 @@ fn main() {
             std::thread::sleep(std::time::Duration::from_millis(500));
             let cur = core::CURRENT.lock().unwrap().clone();
             if let Some((label, since)) = cur {
-                if since.elapsed().as_secs() >= 20 {
+                if since.elapsed().as_secs() >= core::BUDGET_SECS.load(std::sync::atomic::Ordering::SeqCst) {
                     let mut j = J::obj();
                     let mut f = J::obj();
                     f.set("case", J::Int(-1)).set("key", J::s("hang")).set("message", J::s("the implementation did not return within 20 s on this input")).set("op", J::s(&label));
